@@ -412,6 +412,14 @@ def gen_cases(seed, tier):
                    {'pattern': 'CHECK ' + up, 'merchant': 'Check Deposit', 'category': 'Income', 'subcategory': 'Deposits', 'tags': ['up']}]
             cases.append({'kind': 'csv', 'ds': None, 'file': {'tfs': [], 'rows': [rws[i] for i in order]},
                           'txns': [ltx('CHECK DEPOSIT MOBILE'), ltx('CHECK 1234'), ltx('CHECK  #9'), ltx('CHECKS')]})
+    # corpus: the legacy loop searches the UPPER-CASED description; upper-casing is not 1:1 (sharp s -> SS, fi ligature -> FI,
+    # n-apostrophe -> 'N), so a row written for the upper-cased text must match although IGNORECASE on the raw text would not
+    for pat, d in (('STRASSE', 'Cafe Stra\u00dfe 12'), ('FINANZ', 'Uni \ufb01nanz 7'), ('CAFE \u02bcN', 'Cafe \u0149 bar'),
+                   ('STRASSE[amount>10]', 'Hauptstra\u00dfe 5')):
+        cases.append({'kind': 'csv', 'ds': None, 'file': {'tfs': [], 'rows': [
+            {'pattern': pat, 'merchant': 'Upper', 'category': 'Dining', 'subcategory': 'Cafe', 'tags': ['u']},
+            {'pattern': 'CAFE|UNI|HAUPT', 'merchant': 'Later', 'category': 'Other', 'subcategory': '', 'tags': []}]},
+            'txns': [ltx(d), ltx(d.upper()), ltx('Cafe Strasse 12')]})
     # corpus: a walrus target in one rule's match (true, false, in a tag-only rule) and LATER rules that read the same name
     # through a let binding, a top-level variable, a primitive, or not at all (then it is undefined: rule skipped)
     wr = lambda n, m, c, lets=(): {'name': n, 'match': m, 'category': c, 'subcategory': '', 'merchant': '', 'tags': [] if c else ['t'],
